@@ -67,6 +67,9 @@ func GenC05(seed uint64, tier string) *Plan {
 		g.names = []string{"a"}
 		for len(g.names) < n {
 			c := rt.Pick(g.r, memNames)
+			if g.r.Chance(0.35) {
+				c = randomName(g.r)
+			}
 			dup := false
 			for _, x := range g.names {
 				dup = dup || x == c
